@@ -25,12 +25,16 @@ Deep3 == [k \in 1..NA |-> L(<<L(<<L(<<Atoms[k]>>)>>), L(<<>>)>>)]
 Dict1 == [k \in 1..NA |-> D(<< <<Keys[((k - 1) % Len(Keys)) + 1], Atoms[k]>> >>)]
 Dict2 == [k \in 1..Len(Keys) |-> D(<< <<Keys[k], L(<<I("1"), S(<<97>>)>>)>>, <<I("99"), Keys[k]>> >>)]
 DictIn == [k \in 1..Len(Keys) |-> L(<<D(<< <<Keys[k], I("1")>> >>), I("2")>>)]
+\* the same sub-dictionary / sub-list occurring twice (the harness builds these also with ONE shared object: dictionaries are references)
+E1 == D(<< <<I("1"), I("2")>> >>)
+Shared == << D(<< <<S(<<97>>), E1>>, <<S(<<98>>), E1>> >>), L(<<E1, E1>>), D(<< <<I("1"), L(<<E1, I("5")>>)>>, <<I("2"), E1>> >>),
+             D(<< <<S(<<97>>), L(<<I("1"), I("2")>>)>>, <<S(<<98>>), L(<<I("1"), I("2")>>)>> >>), L(<<L(<<E1>>), L(<<E1>>)>>) >>
 DictDeep == << D(<< <<I("1"), D(<< <<S(<<97>>), L(<<I("1"), I("2")>>)>> >>)>> >>), D(<<>>), L(<<D(<<>>)>>) >>
 Misc == << L(<<>>), L(<<L(<<>>)>>), L(Atoms), L(<<I("1"), I("2"), I("3")>>), L(<<R("0.5"), R("1.5e-07")>>), L(<<I("1"), R("2.5")>>),
            L(<<L(<<I("1"), I("2")>>), L(<<I("3"), I("4")>>)>>), L(<<S(<<97>>), S(<<98, 99>>)>>), L(<<C(97), C(98)>>),
            L(<<Y(<<120>>), Y(<<121>>)>>), L(<<I("1"), L(<<I("2"), L(<<I("3"), L(<<>>)>>)>>)>>) >>
 
-Quick == Atoms \o Single \o Trailing \o Deep2 \o Deep3 \o Dict1 \o Dict2 \o DictIn \o DictDeep \o Misc \o PairsWith(1) \o PairsWith(NA - 30)
+Quick == Shared \o Atoms \o Single \o Trailing \o Deep2 \o Deep3 \o Dict1 \o Dict2 \o DictIn \o DictDeep \o Misc \o PairsWith(1) \o PairsWith(NA - 30)
 RECURSIVE AllPairs(_)
 AllPairs(j) == IF j = 0 THEN <<>> ELSE AllPairs(j - 1) \o PairsWith(j)
 Univ == IF Tier = "quick" THEN Quick ELSE Quick \o AllPairs(NA)
@@ -38,5 +42,6 @@ Univ == IF Tier = "quick" THEN Quick ELSE Quick \o AllPairs(NA)
 VARIABLE i
 Init == i = 1
 Next == i <= Len(Univ) /\ i' = i + 1
-Emit == i <= Len(Univ) => PrintT(ToJson([id |-> i, v |-> Univ[i], atom |-> (i <= NA)]))
+NS == Len(Shared)
+Emit == i <= Len(Univ) => PrintT(ToJson([id |-> i, v |-> Univ[i], atom |-> (i > NS /\ i <= NS + NA), shared |-> (i <= NS)]))
 =============================================================================
